@@ -1,5 +1,5 @@
 """C13 — pivots."""
-import itertools, vlib
+import itertools, vlib, gen
 from vlib import mat_line, all_matrices, rand_matrix
 
 RULE = ("all 0/1 (binary pivot) and {-1,0,1} (ternary, regular pivot) matrices with m*n <= bound x all positions "
@@ -31,6 +31,9 @@ def keyfn(line, code):
 
 
 def run(ctx):
+    ctx.stream("leaf", gen.leaf_lines(ctx.rng.fork("leaf"), (0, 1), 2000 if ctx.quick else 100000),
+               "leaf functions (moduloNonnegative / moduloTernary): compiled C vs. the definition translated from the C text vs. the specification",
+               describe=lambda c: gen.LEAF_CODES.get(c, str(c)))
     lines = []
     bound = 6 if ctx.quick else 9
     for q, alpha in ((2, (0, 1)), (3, (-1, 0, 1)), (-3, (-1, 0, 1))):
